@@ -28,7 +28,7 @@ claim("C08",
       "Decides completely: the refusal path performs no caller-visible store (mod/ref) and the create flags contain "
       "O_CREAT|O_EXCL with the failed-open edge returning NULL untouched. Decides as decision tables over {LT,EQ,GT}: "
       "an add proceeds iff no entry yet or sign(key,last accepted key)=GT, and on every success path the remembered key "
-      "ends as exactly the key added. What remains undecided is only the byte semantics of the comparison function (C02.R3). Re-runs C02.R3 (C08.D.*): the gate is exactly as good as the byte comparison it calls.",
+      "ends as exactly the key added. What remains undecided is only the byte semantics of the comparison function (C02.R3). Re-runs C02.R3 (C08.D.*): the gate is exactly as good as the byte comparison it calls. Re-runs C09.R6 (C08.D.*): the finished file holds the accepted entries only if its index keys bound their blocks.",
       "Trusts clang's constant evaluation of the flag macros for this platform, the mod/ref summaries (field-insensitive "
       "aliasing by access path), and that ubuf_reset/ubuf_clip(0)/ubuf_append have the obvious content semantics.")
 
@@ -48,7 +48,7 @@ claim("C05",
       "source), a head is re-sought iff the target is beyond it, seek clears finished/pending first and returns success on every path, and "
       "a forward seek that repositions or drops a head records the target as the new reference key; each merger lookup is built from the matching per-source lookup over all sources with its own key parameters, registering and "
       "offering every non-NULL per-source iterator exactly once and freeing on an empty result. The heap the seek rebuilds and next maintains is decided separately in the order domain: for every heap size up to 5 (6 thorough) and every ordering of the heads, heapify/push/pop/replace keep the elements and the parent<=child invariant and pop/replace/peek return a minimum. Equivalence with a single merged table over "
-      "all histories is not decided.",
+      "all histories is not decided. Also decides the dispatch wiring of the function tables.",
       "Trusts the T-cmp rows 13/14 (invariant read off merger_iter_next: after next returns K all heads are beyond K), loop bound 1 for the "
       "per-source loops, and the access-path aliasing of the evaluator.")
 
@@ -69,7 +69,7 @@ claim("C03",
       "(directly or through a verified out-parameter), so the reuse shortcut of reader_iter_seek can never see a stale identity; seek past the "
       "end only marks the iterator invalid, failure is sticky, next advances iff not first; needs_index_seek equals its six-disjunct table; the "
       "continue-from-current shortcut of block_iter_seek is taken only for sign(current,target)=LT inside the located run, and an exhausted block iterator carries restart_index = num_restarts so the shortcut cannot match it. The contract over "
-      "all (position,target) histories is not decided.",
+      "all (position,target) histories is not decided. Also decides the dispatch wiring of the function tables; re-runs C09.R6 (C03.D.*).",
       "Trusts T-cmp rows 2,3,8,10; out-parameter coupling is verified inside the callee by path evaluation; loop bound 1.")
 
 claim("C02",
@@ -78,7 +78,7 @@ claim("C02",
       "ITER never ends early, the switch covers every kind; each lookup constructor positions with and bounds by the right parameters and starts its iterator with first=true, valid=true, and gives up (NULL) only when no block could be loaded; bytes_compare's "
       "nine-case table (a path that compares no bytes still returns the sign of the length relation) (memcmp sign, else length relation; min length; operand order); no relational operator on plain/signed char bytes anywhere in the "
       "library; bisection/linear-scan accept sets; separator computed iff a block is cut, right before the flush. That index search plus block search "
-      "land on the right entry for every table/query, and the separator arithmetic, are not decided.",
+      "land on the right entry for every table/query, and the separator arithmetic, are not decided. Also decides the dispatch wiring of the mtbl_iter / mtbl_source function tables (slots of equal signature are not cross-wired at registration, in the wrappers or at any construction site); re-runs C09.R6 (C02.D.*): lookups are routed by the separator keys.",
       "Trusts memcmp's unsigned-byte semantics, T-cmp rows 4-7,9,11,22, and that lookups reach the reader only through the constructor table.")
 
 claim("C15",
@@ -88,7 +88,7 @@ claim("C15",
       "each compressor's capacity and allocation derive from the library's own bound function of the input size; every library result is tested with that "
       "library's predicate before success is reported (zero content size legal, both zstd sentinels excluded); lz4 prefix framing agrees across the three "
       "siblings; levels reaching zlib/lz4hc/zstd are clamped into the legal interval on every path; failure exits free the output; when the inflate buffer grows zlib is told exactly the room that was added at the old end; every realloc size is provably positive. The libraries' own "
-      "round-trip behaviour on every buffer is not decided.",
+      "round-trip behaviour on every buffer is not decided. Also decides (R9), by interpreting the allocation wrappers over an allocator model, that my_malloc/my_calloc/my_realloc pass every size - 0 and sizes beyond 2^32 included - to the C library and fail only on NULL.",
       "Trusts T-comp/T-liberr (library contracts transcribed from their headers), that library calls write only through the pointers they are handed, "
       "and clang's constant evaluation of the zlib/zstd macros.")
 
@@ -108,7 +108,7 @@ claim("C18",
       "at every free of a record each owning field (one that anywhere receives an acquired value) was released or moved earlier on that path or never assigned; "
       "munmap uses the mapped length; the three listed indirections (queue released by the joined result thread, reference-counted shared fileset, writer's "
       "closed flag) are verified structurally. Leak freedom over all API histories (aliasing through containers, element-wise release loops) and the temp-file "
-      "namespace are not decided; teardown order versus the handler thread is decided in C13.R3. Also decides (R5) that a parameter through which callers demonstrably hand over an acquired object is stored, released or handed on on every normal path of the callee (unless established NULL). Also decides the container contract of libmy/vector.h (the macro all buffers, restart arrays, heap arrays and entry lists are generated from) with an allocation-aware interpreter: in 36 scenarios per family (1-byte, 8-byte integer and pointer elements) every operation keeps the representation invariant, preserves the elements, meets its post-condition and stays inside live allocations.",
+      "namespace are not decided; teardown order versus the handler thread is decided in C13.R3. Also decides (R5) that a parameter through which callers demonstrably hand over an acquired object is stored, released or handed on on every normal path of the callee (unless established NULL). Also decides the container contract of libmy/vector.h (the macro all buffers, restart arrays, heap arrays and entry lists are generated from) with an allocation-aware interpreter: in 36 scenarios per family (1-byte, 8-byte integer and pointer elements) every operation keeps the representation invariant, preserves the elements, meets its post-condition and stays inside live allocations. Also decides (R7) that an entry my_fileset_reload marks as re-used does not itself remain in the fileset with the mark set.",
       "Trusts T-own (which calls acquire/release/consume/borrow), inference of consuming parameters from 'parameter stored into an object', loop bound 1.")
 
 claim("C13",
@@ -119,7 +119,7 @@ claim("C13",
       "joined flag; the writer dispatches ordered; worker creation is counted under the pool mutex only when no idle thread exists and the maximum is not reached; "
       "each delivered result is read-and-cleared once and passed to the callback once; workers and the result thread leave only on their termination conditions; "
       "the result queue's tail pointer is advanced on append and re-anchored when the queue empties. Deadlock freedom under all schedules and byte identity of "
-      "outputs are model-checking questions and are not decided. Also decides (R9) that no code reachable from a pool work function or result callback hands a non-NULL pool to a writer or sorter it creates (a job waiting for a slot of the pool it occupies).",
+      "outputs are model-checking questions and are not decided. Also decides (R9) that no code reachable from a pool work function or result callback hands a non-NULL pool to a writer or sorter it creates (a job waiting for a slot of the pool it occupies). Re-runs C14 (C13.D.*): the same result under every interleaving presupposes that jobs share no unsynchronised state.",
       "Trusts T-cv/T-lock (which stores are non-enabling and why), pthread semantics, lock objects told apart by base expression inside one function, loop bound 1.")
 
 claim("C14",
@@ -138,7 +138,7 @@ claim("C07",
       "reloads before using the merger; the reload decision equals T-cmp 24 (pending or strictly more than the interval, never under open iterators, NEVER honoured only when "
       "nothing is pending) and the pending flag is cleared only after a reload; every return of mtbl_fileset_reload leaves the handle rebuilt or shown equal to the shared generation; a handle stores its generation only when its merger was rebuilt or shown equal to the shared "
       "generation with nothing loaded/unloaded since; a reader is added to the view iff non-NULL and accepted by every configured filter. Setfile parsing, keep/unload "
-      "bookkeeping over all histories, the clock, and snapshot contents are not decided. Also decides (R8) that the generation stamp handles compare for equality is read from a clock that is not one of the platform's coarse clocks, and (R9) closure pairing for the fileset's filter/merge/dupsort callbacks.",
+      "bookkeeping over all histories, the clock, and snapshot contents are not decided. Also decides (R8) that the generation stamp handles compare for equality is read from a clock that is not one of the platform's coarse clocks, and (R9) closure pairing for the fileset's filter/merge/dupsort callbacks. R8 also requires my_gettime to forward the clock id unchanged.",
       "Trusts that equal timestamps mean the same generation (as the code does), T-cmp rows 24/25, loop bound 1 for the file loop.")
 
 claim("C17",
@@ -157,7 +157,7 @@ claim("C09",
       "agrees with it; a framed block is varint64 length, 4-byte little-endian CRC32C, stored bytes, and the returned size is their sum; the checksum is taken over (data,len_data) of the "
       "same block after their last definition and nothing between compression and the file changes them; restart cadence and reset table; a block is cut iff estimate+15+len_key+len_val "
       ">= block_size; the index entry carries the offset the block started at and pending_offset starts at the descriptor's offset and grows by the bytes written; trailer layout as in C10; every increment applied to separator bytes is guarded against wrap-around and a value computed from a multi-byte read is written back whole (the index key cannot drop below the block's last key that way). "
-      "The bytes of real files (which need an independent decoder run on outputs) and the separator arithmetic are not decided. Also decides that every block record reaching the block-writing function has had its crc field stored on every path, inline or through the pool's work function (definite assignment); re-runs C16 and C17 (C09.D.*). Also decides the container contract of libmy/vector.h (the macro all buffers, restart arrays, heap arrays and entry lists are generated from) with an allocation-aware interpreter: in 36 scenarios per family (1-byte, 8-byte integer and pointer elements) every operation keeps the representation invariant, preserves the elements, meets its post-condition and stays inside live allocations.",
+      "The bytes of real files (which need an independent decoder run on outputs) and the separator arithmetic are not decided. Also decides that every block record reaching the block-writing function has had its crc field stored on every path, inline or through the pool's work function (definite assignment); re-runs C16 and C17 (C09.D.*). Also decides the container contract of libmy/vector.h (the macro all buffers, restart arrays, heap arrays and entry lists are generated from) with an allocation-aware interpreter: in 36 scenarios per family (1-byte, 8-byte integer and pointer elements) every operation keeps the representation invariant, preserves the elements, meets its post-condition and stays inside live allocations. Also decides, by interpreting the real block builder on builders whose entry buffer is tightened to size+d bytes before every add and before finish (d = 0..11, 0..23 thorough), that every write stays inside what was reserved and the finished size is entries + 4 per restart + 4.",
       "Trusts T-format (written from the LevelDB block format and mtbl's documentation), the varint/fixed codecs (decided separately by C16), loop bound 1.")
 
 claim("C11",
@@ -175,7 +175,7 @@ claim("C01",
       "block builder exactly once with the caller's key/value after any block cut and a refused add never does; a finished builder is reset before reuse, a cut block goes either to the pool "
       "once or is compressed then written once, finish runs flush < join < index block < one 512-byte trailer; an exhausted block makes next advance the index once, load the block it names "
       "and position at its first entry, failing only at the end of the index; mtbl_dump prints an entry iff not silent and both prefix tests (length and bytes) and both minimum lengths hold. "
-      "That prefix sharing, restart offsets and block cuts compose to the identity for every key sequence and configuration, and the compression libraries, are not decided. Also decides (R6) that the quantity block_builder_empty tests is emptied by reset and grows by a provably positive amount on every path of block_builder_add, so no non-empty block is skipped at flush; and re-runs the rules of C20 and C16 (labelled C01.D.*) because the round trip rests on them. Also decides the container contract of libmy/vector.h (the macro all buffers, restart arrays, heap arrays and entry lists are generated from) with an allocation-aware interpreter: in 36 scenarios per family (1-byte, 8-byte integer and pointer elements) every operation keeps the representation invariant, preserves the elements, meets its post-condition and stays inside live allocations.",
+      "That prefix sharing, restart offsets and block cuts compose to the identity for every key sequence and configuration, and the compression libraries, are not decided. Also decides (R6) that the quantity block_builder_empty tests is emptied by reset and grows by a provably positive amount on every path of block_builder_add, so no non-empty block is skipped at flush; and re-runs the rules of C20 and C16 (labelled C01.D.*) because the round trip rests on them. Also decides the container contract of libmy/vector.h (the macro all buffers, restart arrays, heap arrays and entry lists are generated from) with an allocation-aware interpreter: in 36 scenarios per family (1-byte, 8-byte integer and pointer elements) every operation keeps the representation invariant, preserves the elements, meets its post-condition and stays inside live allocations. Also decides, by interpreting the real block builder on builders whose entry buffer is tightened to size+d bytes before every add and before finish (d = 0..11, 0..23 thorough), that every write stays inside what was reserved and the finished size is entries + 4 per restart + 4. Also decides the dispatch wiring of the mtbl_iter / mtbl_source function tables (registration, wrappers, construction sites).",
       "Trusts T-format, the varint codecs (decided separately by C16), loop bound 1, three-valued evaluation of the dump formula over the atoms each path constrains.")
 
 claim("C12",
@@ -193,5 +193,5 @@ claim("C06",
       "allocation size is what is accounted and a spill happens iff entry_bytes + vector bytes >= max_memory after accounting, the batch hand-over resets both; mkstemp in the chunk writer is the "
       "sorter's only file creation, its template starts with the configured directory followed by one file-name component, and the file is unlinked on every path; the whole batch is sorted by key "
       "first, neighbours are folded iff their keys are equal and otherwise written, no entry is freed twice; the final merger gets the sorter's merge function/closure and every chunk reader, after "
-      "the join. That chunking never changes the result and qsort/merge behaviour on values are not decided. Also decides (R6) that the buffered-bytes total and the memory limit are 64 bits wide and never narrowed, (R7) that the sorter's merge function is called and forwarded with its own closure; re-runs C02.R3 (C06.D.*). Also decides the container contract of libmy/vector.h (the macro all buffers, restart arrays, heap arrays and entry lists are generated from) with an allocation-aware interpreter: in 36 scenarios per family (1-byte, 8-byte integer and pointer elements) every operation keeps the representation invariant, preserves the elements, meets its post-condition and stays inside live allocations.",
+      "the join. That chunking never changes the result and qsort/merge behaviour on values are not decided. Also decides (R6) that the buffered-bytes total and the memory limit are 64 bits wide and never narrowed, (R7) that the sorter's merge function is called and forwarded with its own closure; re-runs C02.R3 (C06.D.*). Also decides the container contract of libmy/vector.h (the macro all buffers, restart arrays, heap arrays and entry lists are generated from) with an allocation-aware interpreter: in 36 scenarios per family (1-byte, 8-byte integer and pointer elements) every operation keeps the representation invariant, preserves the elements, meets its post-condition and stays inside live allocations. Re-runs the heap discipline (C06.R9) and all rules of C04 (C06.D.*): the sorted output is the merge of the chunks.",
       "Trusts T-cmp rows 16-18, mkstemp/unlink semantics, loop bound 1.")
